@@ -110,7 +110,7 @@ Definition ok_step (U : op -> Prop) (w : world) (s : step_t) : Prop :=
   match s with
   | SWrite n k _ _ | SDel n k =>
       forall nd, w_nodes w !! n = Some nd -> n_eng nd !! k = None -> fresh_key U k
-  | SInject _ _ b => forall o, In o b -> U o
+  | SInject _ _ b | SFaulty _ (GInject _ _ b) => forall o, In o b -> U o
   | SRecBegin _ _ | SRecEnd _ _ => False
   | _ => True
   end.
@@ -506,6 +506,49 @@ Proof.
       * exists d. auto using entry_le_refl.
 Qed.
 
+(* ---------- an ingress transaction that fails to commit ---------- *)
+Lemma ingest_at_fail_cases fx w j sender ops :
+  ingest_at_fail fx w j sender ops = ingest_at fx w j sender ops \/
+  (w_nodes (ingest_at_fail fx w j sender ops) = w_nodes w /\ w_msgs (ingest_at_fail fx w j sender ops) = w_msgs w).
+Proof.
+  unfold ingest_at_fail. destruct ops as [|o ops]; [right; split; reflexivity|].
+  destruct (w_nodes w !! j) as [nd|]; [|right; split; reflexivity].
+  destruct (ingest (n_eng nd) (o :: ops)) as [[e' acc] rej]. destruct acc; [left; reflexivity|right; split; reflexivity].
+Qed.
+
+Lemma InvU_ingest_at_f fx fn U w j sender ops :
+  InvU U w -> (forall o, In o ops -> U o) -> InvU U (ingest_at_f fx fn w j sender ops).
+Proof.
+  intros I Hops. unfold ingest_at_f. destruct (bool_decide (fn = j)); [|apply InvU_ingest_at; assumption].
+  destruct (ingest_at_fail_cases fx w j sender ops) as [->|[E1 E2]]; [apply InvU_ingest_at; assumption|].
+  eapply InvU_ext; [symmetry; exact E1|symmetry; exact E2|exact I].
+Qed.
+
+Lemma world_le_ingest_at_f fx fn w j sender ops : world_le w (ingest_at_f fx fn w j sender ops).
+Proof.
+  unfold ingest_at_f. destruct (bool_decide (fn = j)); [|apply world_le_ingest_at].
+  destruct (ingest_at_fail_cases fx w j sender ops) as [->|[E1 _]]; [apply world_le_ingest_at|].
+  apply world_le_ext. symmetry. exact E1.
+Qed.
+
+Lemma round_f_steps fx fn U w i j late : InvU U w -> InvU U (round_f fx fn w i j late) /\ world_le w (round_f fx fn w i j late).
+Proof.
+  intros I. unfold round_f.
+  destruct (w_nodes w !! i); [|split; [exact I|apply world_le_refl]].
+  destruct (w_nodes w !! j); [|split; [exact I|apply world_le_refl]].
+  destruct (bool_decide (i = j)); [split; [exact I|apply world_le_refl]|].
+  destruct (payload w i) as [|o pl] eqn:Ep; [split; [exact I|apply world_le_refl]|].
+  assert (forall x, In x (o :: pl) -> U x) as Hpl by (intros x Hx; rewrite <- Ep in Hx; eapply InvU_payload; eassumption).
+  pose proof (InvU_ingest_at_f fx fn U w j i (o :: pl) I Hpl) as I1.
+  destruct late.
+  - split.
+    + apply InvU_ingest_at_f; [exact I1|]. intros x Hx. exact (InvU_payload U _ j x I1 Hx).
+    + eapply world_le_trans; apply world_le_ingest_at_f.
+  - split.
+    + apply InvU_ingest_at_f; [exact I1|]. intros x Hx. exact (InvU_payload U w j x I Hx).
+    + eapply world_le_trans; apply world_le_ingest_at_f.
+Qed.
+
 (* ---------- one step ---------- *)
 Lemma round_steps fx U w i j late : InvU U w -> InvU U (round fx w i j late) /\ world_le w (round fx w i j late).
 Proof.
@@ -537,7 +580,7 @@ Theorem step_preserves fx T U w s :
   InvU U w -> ok_step U w s ->
   InvU (grow U (new_op w s)) (step fx T w s).1 /\ world_le w (step fx T w s).1.
 Proof.
-  intros I Hok. destruct s as [n k v lease|n k|n sender b|n|m n|i j late|f| |n|n p|n p|n p|n s filter|n s]; simpl in *.
+  intros I Hok. destruct s as [n k v lease|n k|n sender b|n|m n|i j late|f| |n|n p|n p|n p|n s filter|fn g|n s]; simpl in *.
   - apply step_write; assumption.
   - apply step_write; assumption.
   - split; [apply InvU_grow_None, InvU_ingest_at; assumption|apply world_le_ingest_at].
@@ -575,6 +618,13 @@ Proof.
       * lia.
       * eapply iu_rec; eassumption.
     + eapply (world_le_upd w n nd _ (w_msgs w) (w_fbs w)); [exact En|]. simpl. intros k d H. exists d. auto using entry_le_refl.
+  - destruct g as [n sender b|m n|i j late]; simpl in *.
+    + split; [apply InvU_grow_None, InvU_ingest_at_f; assumption|apply world_le_ingest_at_f].
+    + destruct (w_msgs w !! m) as [[sender ops]|] eqn:Em; simpl.
+      * split; [|apply world_le_ingest_at_f]. apply InvU_grow_None, InvU_ingest_at_f; [exact I|].
+        intros o Ho. eapply iu_sub; [exact I|]. eapply iw_msg; eassumption.
+      * split; [apply InvU_grow_None, I|apply world_le_refl].
+    + destruct (round_f_steps fx fn U w i j late I) as [I' L]. split; [apply InvU_grow_None, I'|exact L].
   - unfold stall. destruct (w_nodes w !! n) as [nd|] eqn:En; [|split; [apply InvU_grow_None, I|apply world_le_refl]].
     split.
     + apply InvU_grow_None. eapply (InvU_upd0 U w n nd _ (w_fbs w)); [exact I|exact En|..]; simpl.
